@@ -172,6 +172,10 @@ class RuntimeV1_0(Runtime):
                     events, processing_log=processing_log
                 )
 
+                # The started flow might wait for the user before doing anything.
+                if len(next_events) == 0:
+                    next_events = [new_event_dict("Listen")]
+
             else:
                 # We need to slide all the flows based on the current event,
                 # to compute the next steps.
